@@ -232,43 +232,7 @@ func checkC09(c *Ctx) {
 	// ---- C09.17 "nothing deadlocks", in the probe the ingest workers share: the LRU library calls the cache's eviction
 	// callback from inside Add / Remove / Resize, and the callback takes the cache mutex - so no call into the LRU is
 	// made while that mutex may be held (in any mode: a read lock held by the caller blocks the callback's write lock)
-	r.Rule("C09.17", "the liveness LRU is never called while the cache mutex may be held (its eviction callback takes it)", 3)
-	{
-		n := 0
-		for _, f := range c.funcsOfPkgs("pkg/station/liveness") {
-			if f.Blocks == nil || f.Signature.Recv() == nil || !strings.HasSuffix(typeShort(f.Signature.Recv().Type()), "liveness.lruCache") {
-				continue
-			}
-			lf := analyseLocks(f, lockSet{})
-			eachInstr(f, func(in ssa.Instruction) {
-				call, ok := in.(*ssa.Call)
-				if !ok {
-					return
-				}
-				name := calleeName(&call.Call)
-				if !strings.Contains(name, "golang-lru") {
-					return
-				}
-				switch calleeShort(&call.Call) {
-				case "Add", "Remove", "Resize", "RemoveOldest", "Purge", "ContainsOrAdd", "PeekOrAdd":
-				default:
-					return // Get / Contains / Len / Keys do not evict
-				}
-				n++
-				held := ""
-				for k := range realLocks(lf.May[in]) {
-					if strings.Contains(k, ".m/") {
-						held = k
-					}
-				}
-				r.Check(held == "", "C09.17", fnName(f)+": "+shortName(name)+" with the cache mutex released", in.Pos(), fnName(f), "no lock of the cache in the may-held set",
-					"the LRU is modified while "+held+" is held: when the call evicts an entry the library runs the eviction callback, which takes the cache's write lock - the caller deadlocks on its own lock, the waiting writer blocks every later reader, and every ingest worker hangs in the liveness probe")
-			})
-		}
-		if n == 0 {
-			r.Unk("C09.17", "calls into the LRU library", token.NoPos, "", "none found in the methods of lruCache")
-		}
-	}
+	checkLRUNotUnderLock(c, "C09.17")
 	// ---- C09.18 the policy lists the ingest workers read without a lock are replaced whole, never rebuilt in place
 	// (shared with C19.2 / C06.9)
 	r.Rule("C09.18", "a reload swaps in the parsed policy lists of the new configuration; it never re-parses into the live object", 2)
@@ -1091,4 +1055,46 @@ func checkTableDeletes(c *Ctx, rule string) {
 		}
 	}
 
+}
+
+// checkLRUNotUnderLock (C09.17, C11.13)
+func checkLRUNotUnderLock(c *Ctx, rule string) {
+	r := c.R
+	r.Rule(rule, "the liveness LRU is never called while the cache mutex may be held (its eviction callback takes it)", 3)
+	{
+		n := 0
+		for _, f := range c.funcsOfPkgs("pkg/station/liveness") {
+			if f.Blocks == nil || f.Signature.Recv() == nil || !strings.HasSuffix(typeShort(f.Signature.Recv().Type()), "liveness.lruCache") {
+				continue
+			}
+			lf := analyseLocks(f, lockSet{})
+			eachInstr(f, func(in ssa.Instruction) {
+				call, ok := in.(*ssa.Call)
+				if !ok {
+					return
+				}
+				name := calleeName(&call.Call)
+				if !strings.Contains(name, "golang-lru") {
+					return
+				}
+				switch calleeShort(&call.Call) {
+				case "Add", "Remove", "Resize", "RemoveOldest", "Purge", "ContainsOrAdd", "PeekOrAdd":
+				default:
+					return // Get / Contains / Len / Keys do not evict
+				}
+				n++
+				held := ""
+				for k := range realLocks(lf.May[in]) {
+					if strings.Contains(k, ".m/") {
+						held = k
+					}
+				}
+				r.Check(held == "", rule, fnName(f)+": "+shortName(name)+" with the cache mutex released", in.Pos(), fnName(f), "no lock of the cache in the may-held set",
+					"the LRU is modified while "+held+" is held: when the call evicts an entry the library runs the eviction callback, which takes the cache's write lock - the caller deadlocks on its own lock, the waiting writer blocks every later reader, and every ingest worker hangs in the liveness probe")
+			})
+		}
+		if n == 0 {
+			r.Unk(rule, "calls into the LRU library", token.NoPos, "", "none found in the methods of lruCache")
+		}
+	}
 }
